@@ -41,6 +41,7 @@ PROPS["C02"] = {
         ("contracts.wordcode", "xdis.cross_dis:unpack_opargs_bytecode_310"),
         ("contracts.wordcode", "xdis.cross_dis:unpack_opargs_bytecode_310/3.11+"),
         ("contracts.wordcode", "xdis.cross_dis:unpack_opargs_bytecode"),
+        ("contracts.decoder", "xdis.bytecode:get_instructions_bytes"),
     ],
     "assumptions": [],
 }
@@ -119,6 +120,22 @@ PROPS["C16"] = {
                     "copy.deepcopy copies the record and shares immutable field values"],
 }
 
+PROPS["C20"] = {
+    "level": "proof",
+    "contracts": [
+        ("contracts.std", "xdis.std:_StdApi.get_instructions"),
+        ("contracts.std", "xdis.std:_StdApi.get_instructions/first_line=None"),
+        ("contracts.std", "xdis.std:_StdApi.findlabels"),
+        ("contracts.decoder", "xdis.bytecode:get_instructions_bytes"),
+        # callees the wrappers rely on: the per-offset decoder (tables of the hosts that can run xdis, all in the
+        # thorough tier) and the label finders
+        ("contracts.decoder", "xdis.bytecode:get_logical_instruction_at_offset", {"quick": ["38", "39", "310", "311", "312", "313"], "thorough": None}),
+        ("contracts.wordcode", "xdis.wordcode:findlabels"),
+        ("contracts.wordcode", "xdis.wordcode:findlabels/3.11+"),
+    ],
+    "assumptions": [],
+}
+
 # ---------------------------------------------------------------------------------------------
 # level texts / notes (MANIFEST)
 _T = {
@@ -140,6 +157,8 @@ _T = {
          "closed forms of CPython's C function selected from a template family by agreement with the interpreters on sampled operands; versions without an interpreter are not covered."),
  "C17": ("_parse_varint and parse_exception_table are proved for all byte strings against the exception-table format (big-endian 6-bit varints, 4 per entry), including termination and StopIteration exactly on truncated input.",
          "location-table (co_positions/co_lines) walkers: bounded differential only so far."),
+ "C20": ("The std wrappers are proved to be plumbing into verified code: _StdApi.get_instructions / Bytecode.get_instructions invoke the stream driver exactly once with the API object's own opcode table, the code's own byte string and tables, the line starts computed for that code and line_offset = first_line - co_firstlineno; _StdApi.findlabels returns the CPython label set; the driver get_instructions_bytes is proved (3.6+ tables) to tile the code in words with CPython's globally folded operands and to pass the decoder's is_jump_target / starts_line (incl. the first_line shift) through; the decoder and label finders it relies on are proved per table.",
+         "object coercion (functions, methods, generators, source strings -> code) and module-level tables are compared with the host's dis only by the bounded host differential; code objects with an exception table take the exception_entries path that is outside the driver's contract; dict(findlinestarts(..)) is an abstract map tied to its source sequence."),
  "C16": ("codeType2Portable, Code38/Code310/Code311.to_native and Code13.replace are proved, for each host 3.8-3.13 (attribute set and positional constructor order of types.CodeType taken from the real interpreters), to map every field to the same field (in particular the host's real line table and exception table), to choose the portable class of the host's version, and to leave the original object unchanged.",
          "field values are abstract tokens (identity + type): a plumbing proof; types.CodeType is an external constructor modelled by its positional order; a frame condition (no attribute added to the portable object) is part of the contract."),
 }
